@@ -1581,6 +1581,18 @@ class IndexHierarchy(IndexBase):
 
         return self.__class__(levels, name=self._name)
 
+    @classmethod
+    def _levels_reoffset(cls, level: IndexLevel) -> None:
+        '''Recompute, in place, the offsets of all descendants of ``level`` from the lengths of their preceding siblings. Only for levels owned by the caller.
+        '''
+        if level.targets is None:
+            return
+        offset = 0
+        for target in level.targets:
+            target.offset = offset
+            cls._levels_reoffset(target)
+            offset += target.__len__()
+
     def level_drop(self,
             count: int = 1,
             ) -> tp.Union[Index, 'IndexHierarchy']:
@@ -1617,6 +1629,8 @@ class IndexHierarchy(IndexBase):
 
             if levels.targets is None: # fall back to 1D index
                 return levels.index.rename(name)
+            # pruned subtrees are shorter: the offsets of their following siblings must follow
+            self._levels_reoffset(levels)
 
             # if we have TypeBlocks and levels is the same length
             if not self._recache and levels.__len__() == self.__len__():
@@ -1643,6 +1657,8 @@ class IndexHierarchy(IndexBase):
                 levels = levels.__class__(
                         index=index,
                         targets=ArrayGO(targets, own_iterable=True))
+                # subtrees of different former parents are now siblings: their offsets are relative to the new parent
+                self._levels_reoffset(levels)
 
             # if we have TypeBlocks and levels is the same length
             if not self._recache and levels.__len__() == self.__len__():
